@@ -4,7 +4,7 @@ import importlib
 from .. import harness, refsem
 from ..core import sha
 
-FAMILIES = ["f1_expr", "f2_portrefs", "f3_noconn", "f5_arrays", "f4_bundles", "f6_pairs", "f7_hier"]
+FAMILIES = ["f1_expr", "f2_portrefs", "f3_noconn", "f5_arrays", "f4_bundles", "f6_pairs", "f7_hier", "f9_multifeed"]
 
 
 def _one(item):
